@@ -247,7 +247,9 @@ def run(ctx):
     t00 = time.time()
     # (0) anchors
     r = vlib.tlc("ValidatorVectors", timeout=900, extra=["-continue"], workers=WORKERS, quiet=True)
-    failed = re.findall(r'name = "(\w+)"\s*\n/\\ ok = FALSE', r.out)
+    failed = re.findall(r'/\\ ok = FALSE\s*\n/\\ phase = \d+\s*\n/\\ name = "(\w+)"', r.out) + re.findall(r'name = "(\w+)"\s*\n/\\ ok = FALSE', r.out)
+    if "ok = FALSE" in r.out and not failed:
+        failed = ["?"]
     ev.cov["anchor_vectors_evaluated"] = max(0, (r.distinct - 1) // 2)
     if r.rc != 0 or failed or r.distinct < 3:
         ctx.note_inconclusive("specification anchors fail (specification error, no verdict): %s %s" % (failed, (r.violation or r.error or "")[:300]))
